@@ -91,15 +91,31 @@ def main():
     if not a:
         print(__doc__)
         return 2
-    if a[0] == "import":
+    if a[0] in ("import", "import2"):
         wt, sid, prop = a[1], a[2], a[3]
-        needs = a[5] if len(a) > 5 and a[4] == "--needs" else ""
-        src = pathlib.Path(wt) / "_seed"
-        dst = SEEDED / sid
-        dst.mkdir(parents=True, exist_ok=True)
-        # always regenerate the patch from the worktree (source files only)
-        rc, diff = sh(f"git -C {wt} diff -- src")
-        (dst / "patch.diff").write_text(diff)
+        needs = a[a.index("--needs") + 1] if "--needs" in a else ""
+        if a[0] == "import2":
+            # round 2: two changes per worktree, delivered as _seed/<sub>/patch.diff (the worktree itself is left clean)
+            sub = a[4]
+            src = pathlib.Path(wt) / "_seed" / sub
+            dst = SEEDED / sid
+            dst.mkdir(parents=True, exist_ok=True)
+            diff = (src / "patch.diff").read_text()
+            # keep source changes only
+            keep, on = [], False
+            for line in diff.splitlines(keepends=True):
+                if line.startswith("diff --git"):
+                    on = " b/src/" in line
+                if on:
+                    keep.append(line)
+            (dst / "patch.diff").write_text("".join(keep))
+        else:
+            src = pathlib.Path(wt) / "_seed"
+            dst = SEEDED / sid
+            dst.mkdir(parents=True, exist_ok=True)
+            # always regenerate the patch from the worktree (source files only)
+            rc, diff = sh(f"git -C {wt} diff -- src")
+            (dst / "patch.diff").write_text(diff)
         shutil.copy(src / "demo.py", dst / "demo.py")
         if (src / "notes.md").exists():
             shutil.copy(src / "notes.md", dst / "notes.md")
